@@ -327,6 +327,15 @@ def _emit_fn(g, src, args, spec, loops, replaces, proofs=(), attrs=()):
                 raise
         before, rest = joined.split('\x00')
         wh, body = rest.split('\x01')
+    # R6g (global, optional): compound assignment with the non-short-circuit bool operators, which Verus rejects:
+    # `x |= e;` -> `{ let vtmp = e; x = x || vtmp; }` (e is still evaluated exactly once, before the update), likewise `&=`.
+    # Only sound for bool operands; on integers the rewritten text does not type-check (front-end error -> undecided).
+    for op, sc in (('|', '||'), ('&', '&&')):
+        pat = re.compile(r'(?<![\w.\]])([A-Za-z_][\w.]*)\s*' + re.escape(op) + r'=\s*([^;{}]+);')
+        found = pat.findall(body)
+        if found:
+            body = pat.sub(lambda m: '{ let vtmp_b = %s; %s = %s %s vtmp_b; }' % (m.group(2), m.group(1), m.group(1), sc), body)
+            g.rewrites.append({'where': where, 'old': 'x %s= e; (bool)' % op, 'new': '{ let vtmp_b = e; x = x %s vtmp_b; }' % sc, 'count': len(found)})
     # ghost-only insertions (proof blocks are erased by Verus: executable text unchanged)
     for pos, anchor, plines, pkind in proofs:
         if pkind == 'ghost':
